@@ -391,7 +391,7 @@ var keywords = map[string]bool{
 	"package": true, "sort": true, "spec": true, "macro": true, "axiom": true, "lemma": true,
 	"ghost": true, "func": true, "iface": true, "property": true, "requires": true, "ensures": true,
 	"invariant": true, "modifies": true, "pure": true, "trusted": true, "aux": true, "inline": true,
-	"nobody": true, "replay": true, "reveal": true, "const": true, "import": true, "fresh": true, "opt": true,
+	"nobody": true, "replay": true, "reveal": true, "auto": true, "loopinv": true, "const": true, "import": true, "fresh": true, "opt": true,
 }
 
 type directive struct {
@@ -500,6 +500,17 @@ func ParseFile(path string, pkg string) (*File, error) {
 				f.Lemmas = append(f.Lemmas, cl)
 			}
 			cur = nil
+		case "auto":
+			// auto <prop> modifies <ghost>: template contract applied to every
+			// function of the package that may modify <ghost> and returns error
+			parts := strings.Fields(d.text)
+			if len(parts) != 3 || parts[1] != "modifies" {
+				return nil, fail(d, fmt.Errorf("want: auto <prop> modifies <ghost>"))
+			}
+			c := &FuncContract{Name: "auto:" + parts[0] + ":" + parts[2], Pkg: f.Pkg, Src: src,
+				Opts: map[string]string{}, AuxLabels: map[string]bool{}, Props: []string{parts[0]}}
+			f.Contracts = append(f.Contracts, c)
+			cur = c
 		case "func", "iface":
 			c, err := parseFuncHeader(d.text)
 			if err != nil {
@@ -546,6 +557,14 @@ func ParseFile(path string, pkg string) (*File, error) {
 					return nil, fail(d, err)
 				}
 				cl.Loop = n
+				cl.Src = src
+				cur.Invs = append(cur.Invs, cl)
+			case "loopinv":
+				cl, err := parseClause(d.text)
+				if err != nil {
+					return nil, fail(d, err)
+				}
+				cl.Loop = 0
 				cl.Src = src
 				cur.Invs = append(cur.Invs, cl)
 			case "modifies":
